@@ -86,12 +86,16 @@ type childRun struct {
 var reRecovered = regexp.MustCompile(`^NODE-RECOVERED store=(\d+) state=(\d+) app=(\d+)`)
 
 func runChild(dir string, script *nodeScript, env []string) childRun {
+	return runChildArgs(dir, script, env, nil)
+}
+
+func runChildArgs(dir string, script *nodeScript, env []string, extra []string) childRun {
 	res := childRun{blocks: map[int64]string{}, exit: -1}
 	sf := dir + "-script.json"
 	bs, _ := json.Marshal(script)
 	ioutil.WriteFile(sf, bs, 0644)
 	defer os.Remove(sf)
-	cmd := exec.Command(os.Args[0], "node", "--dir", dir, "--script", sf)
+	cmd := exec.Command(os.Args[0], append([]string{"node", "--dir", dir, "--script", sf}, extra...)...)
 	cmd.Env = append(os.Environ(), env...)
 	var stderr bytes.Buffer
 	cmd.Stderr = &stderr
